@@ -20,18 +20,17 @@ def merge_file_list(fname, label, chr_ids):
     return [rreplace(fname, label, f"{label}_{chr_id}") for chr_id in chr_ids]
 
 
-def merge_files(file_name, label, chr_ids, merged_file_handler, copy_header=True):
+def merge_files(file_name, label, chr_ids, merged_file_handler, copy_header=True, header_lines=0):
+    # header_lines: the number of lines the writer of the per-chromosome files puts before the first record.
+    # It is given by the caller, the content of a line cannot tell: a record may itself start with '#'
+    # (a read id, a gene / transcript id and a contig name may begin with any printable character)
     file_names = merge_file_list(file_name, label, chr_ids)
     file_names.sort(key=lambda s: [int(t) if t.isdigit() else t.lower() for t in re.split('(\d+)', s)])
     for i, file_name in enumerate(file_names):
         if not os.path.exists(file_name): continue
-        header_count = 0
-        with open(file_name, 'r') as f:
-            while f.readline().startswith("#"):
-                header_count += 1
         with open(file_name, 'rt') as f:
             if not (copy_header and i == 0):
-                for j in range(header_count):
+                for j in range(header_lines):
                     f.readline()
             shutil.copyfileobj(f, merged_file_handler)
     for file_name in file_names:
@@ -41,10 +40,11 @@ def merge_files(file_name, label, chr_ids, merged_file_handler, copy_header=True
 def merge_counts(counter, label, chr_ids, unaligned_reads=0):
     file_name = counter.output_counts_file_name
     merged_file_handler = counter.get_output_file_handler()
-    merge_files(file_name, label, chr_ids, merged_file_handler)
+    # every counter starts its file with one header line; a feature row may start with '#' as well
+    merge_files(file_name, label, chr_ids, merged_file_handler, header_lines=1)
     merged_linear_handler = counter.get_linear_output_file_handler()
     if merged_linear_handler:
-        merge_files(counter.linear_output_file, label, chr_ids, merged_linear_handler)
+        merge_files(counter.linear_output_file, label, chr_ids, merged_linear_handler, header_lines=1)
 
     counter.reads_for_tpm = 0
     stat_dict = {"__ambiguous": 0, "__no_feature": 0, "__not_aligned": 0, "__usable": 0}
